@@ -384,6 +384,8 @@ Result<WorkResult, WorkError>
     {
         Ok(resolutions) =>
         {
+            info.blob.forget_file_states_of_replaced_files(&resolutions);
+
             if needs_rebuild(&resolutions)
             {
                 rebuild_node(
